@@ -473,6 +473,9 @@ def structure_findings(pairs: Pairs, relaxed_objs: list, counters) -> list[tuple
     out = []
     for label, field, a, b in snapshot.diff(_normalise(so, relaxed), _normalise(sc, relaxed), limit=8):
         kind = KIND.get(label[0], "obj")
+        if field in NOT_SERIALISED:
+            counters[f"report_only_unserialised_facet_differs:{kind}.{field}"] += 1
+            continue
         out.append((f"structure-differs|{kind}.{field}", f"{label} ({_objname(wo, label)}).{field}: original {a!r}, clone {b!r}"))
     # facets the shared snapshot does not read
     xo, xc = extras(wo), extras(wc)
@@ -483,11 +486,18 @@ def structure_findings(pairs: Pairs, relaxed_objs: list, counters) -> list[tuple
                 if label.startswith("m") and field in ("meta_valid", "meta"):
                     counters["report_only_model_meta_not_cloned"] += 1
                     continue
+                if field in NOT_SERIALISED:
+                    counters[f"report_only_unserialised_facet_differs:{KIND.get(label[0], 'obj')}.{field}"] += 1
+                    continue
                 out.append((f"structure-differs|{KIND.get(label[0], 'obj')}.{field}",
                             f"{label} ({_objname(wo, label)}).{field}: original {a!r}, clone {b!r}"))
     return out
 
 
+# public observables that serialisation does not carry: "serializes exactly like the original" is
+# silent about them, so a difference between original and clone is shown in the evidence only
+# (sharing of the containers and leaks through later edits are judged by the other oracles)
+NOT_SERIALISED = {"meta", "meta_valid", "version"}
 KIND = {"v": "value", "n": "node", "g": "graph", "f": "function", "m": "model"}
 
 
